@@ -105,6 +105,270 @@ def run(P, rep, tier):
     r1714(P, rep)
     r1715(P, rep)
     r1716(P, rep)
+    r1717(P, rep)
+    r1718(P, rep)
+
+# ------------------------------------------------------------------ R17.17: a name is found under exactly its spelling ---
+_BYTE_CMP = ('strncmp', 'memcmp')
+_LIBC_PURE = ('strlen', 'strncmp', 'memcmp', 'strcmp', 'strncasecmp')
+
+
+def _once_defs(fd):
+    """decl id -> the single defining expression of a local that is defined exactly once (initialiser or one assignment), for looking through
+    `int n = tok->len;` style temporaries"""
+    defs = {}
+    for n in fd.walk():
+        if n.kind == 'VarDecl':
+            init = [x for x in n.inner if x.kind not in ('FullComment',) and not x.kind.endswith('Attr')]
+            defs.setdefault(n.id, [])
+            if init:
+                defs[n.id].append(init[-1])
+        elif n.kind == 'BinaryOperator' and n.opcode == '=':
+            l = n.inner[0].strip()
+            if l.kind == 'DeclRefExpr' and l.ref_kind in ('VarDecl', 'ParmVarDecl'):
+                defs.setdefault(l.ref_id, []).append(n.inner[1])
+        elif n.kind == 'CompoundAssignOperator' or (n.kind == 'UnaryOperator' and n.opcode in ('++', '--', '&')):
+            l = n.inner[0].strip()
+            if l.kind == 'DeclRefExpr' and l.ref_kind in ('VarDecl', 'ParmVarDecl'):
+                defs.setdefault(l.ref_id, []).append(None)
+    return {k: v[0] for k, v in defs.items() if len(v) == 1 and v[0] is not None}
+
+
+def _thru(e, once, depth=0):
+    """the expression with once-defined plain locals replaced by their definition"""
+    n = e.strip_all()
+    while depth < 4 and n.kind == 'DeclRefExpr' and n.ref_kind == 'VarDecl' and n.ref_id in once:
+        n = once[n.ref_id].strip_all()
+        depth += 1
+    return n
+
+
+def _base_src(n):
+    return n.inner[0].strip_all().src() if n.kind == 'MemberExpr' and n.inner else None
+
+
+def _made_from_param(fd, e, pnames, depth=0):
+    """the value of `e` is computed from a parameter of fd and nothing else that varies: e is the parameter, or a local all of whose definitions
+    mention (through further such locals) a parameter, literals and calls only"""
+    n = e.strip_all()
+    if n.kind != 'DeclRefExpr':
+        return False
+    if n.ref_kind == 'ParmVarDecl':
+        return n.ref_name in pnames
+    if n.ref_kind != 'VarDecl' or depth > 6:
+        return False
+    defs = []
+    for x in fd.walk():
+        if x.kind == 'VarDecl' and x.id == n.ref_id:
+            defs += [y for y in x.inner if y.kind not in ('FullComment',) and not y.kind.endswith('Attr')][-1:]
+        elif x.kind == 'BinaryOperator' and x.opcode == '=' and x.inner[0].strip().kind == 'DeclRefExpr' and x.inner[0].strip().ref_id == n.ref_id:
+            defs.append(x.inner[1])
+    if not defs:
+        return False
+    for d in defs:
+        refs = [r for r in d.walk() if r.kind == 'DeclRefExpr' and r.ref_kind in ('VarDecl', 'ParmVarDecl')]
+        if not refs or not all(_made_from_param(fd, r, pnames, depth + 1) for r in refs):
+            return False
+    return True
+
+
+def _has_length_sibling(u, m):
+    """m is a field of a record that also keeps a length (`loc`/`len`, `key`/`keylen`)"""
+    from ..lib_c17_memo import _rec_name
+    rec = _rec_name(m.inner[0].type if m.inner else '')
+    return any(f != m.name and 'len' in f for (f, t, bf) in u.records.get(rec, ()))
+
+
+def _nm(n, dflt):
+    return (n.name if n.kind == 'MemberExpr' else n.ref_name if n.kind == 'DeclRefExpr' else None) or dflt
+
+
+def _cond_context(call):
+    """the conditions that decide, together with the comparison, whether the entry is taken: the whole condition expression the call stands in, the
+    conditions of the enclosing if statements, and the conditions of the if statements that precede it in the enclosing blocks of the same function and jump
+    away (continue/break/return/goto)"""
+    out = []
+    top = call
+    while top.parent is not None and top.parent.kind in ('ParenExpr', 'ImplicitCastExpr', 'UnaryOperator', 'BinaryOperator', 'ConditionalOperator', 'CStyleCastExpr'):
+        top = top.parent
+    out.append(top)
+    prev = call
+    for a in call.ancestors():
+        if a.kind == 'FunctionDecl':
+            break
+        if a.kind == 'IfStmt' and a.inner and prev is not a.inner[0]:
+            out.append(a.inner[0])
+        if a.kind == 'CompoundStmt':
+            for sib in a.inner:
+                if sib is prev:
+                    break
+                if sib.kind == 'IfStmt' and len(sib.inner) >= 2 and any(x.kind in ('ContinueStmt', 'BreakStmt', 'ReturnStmt', 'GotoStmt') for x in sib.inner[1].walk()):
+                    out.append(sib.inner[0])
+        prev = a
+    return out
+
+
+def _length_evidence(conds, stored, nlen, once):
+    """does one of the conditions compare the length of the stored name with the compared length `nlen`?  forms: nlen ==/!= strlen(stored);
+    nlen ==/!= <sibling field of stored> (a record that keeps (pointer, length)); stored[nlen] tested against 0.  Returns 'yes', 'no', or 'helper' (a
+    call of a program function over these operands stands in the condition: the test may be in there)"""
+    ssrc, nsrc = stored.src(), nlen.src()
+    sbase = _base_src(stored)
+    helper = False
+    for c in conds:
+        for b in c.walk():
+            if b.kind == 'BinaryOperator' and b.opcode in ('==', '!='):
+                l, r = _thru(b.inner[0], once), _thru(b.inner[1], once)
+                for x, y in ((l, r), (r, l)):
+                    if x.src() != nsrc:
+                        continue
+                    if y.kind == 'CallExpr' and y.callee() == 'strlen' and y.args() and _thru(y.args()[0], once).src() == ssrc:
+                        return 'yes'
+                    if y.kind == 'MemberExpr' and sbase is not None and _base_src(y) == sbase and y.name != stored.name:
+                        return 'yes'
+            if b.kind == 'ArraySubscriptExpr' and len(b.inner) == 2:
+                if _thru(b.inner[0], once).src() == ssrc and _thru(b.inner[1], once).src() == nsrc:
+                    return 'yes'
+            if b.kind == 'CallExpr' and b.callee() not in _LIBC_PURE and b.callee() is not None:
+                txt = ' '.join(_thru(a, once).src() for a in b.args())
+                if ssrc in txt or nsrc in txt or (sbase and sbase in txt):
+                    helper = True
+    return 'helper' if helper else 'no'
+
+
+def r1717(P, rep):
+    """a name table answers for exactly the name asked: wherever the bytes of a key given as (pointer, length) - a token's spelling `tok->loc, tok->len`, a
+    `(char *s, int len)` parameter pair - are compared with a stored name over the KEY's length, the comparison only shows that the stored name BEGINS with
+    the key; the entry may be taken only if the same decision also establishes that the stored name has that length.  (i) C09's concrete evaluation of
+    find_arg on parameter lists with prefix-related names, re-issued: the argument list of a macro invocation is a name table of this property; (ii) the
+    structural fact at every such comparison in the program; (iii) a length-taking table operation is given the length that belongs to its key bytes"""
+    from ..report import Report, reissue
+    rep.rule('R17.17', 'a name is found only under exactly its spelling: the lookup of a macro parameter in the argument list of an invocation answers the parameter of that very name for lists with '
+                       'prefix-related names (C09 R09.3 find_arg re-issued); every strncmp/memcmp of a (pointer, length) key against a stored name over the key\'s length is decided together with a test '
+                       'that the stored name has that length (strlen, the stored length field, or the terminator at that offset); every hashmap_get2/put2/delete2 gets the length that belongs to its key bytes', floor=12)
+    u = P.unit('preprocess.c')
+    sub = Report('C09')
+    sub.rule('R09.3', '', 1)
+
+    def go():
+        from . import c09
+        c09.r_arg_lookup(P, u, sub)
+        return True
+    _borrow(rep, 'R17.17', 'preprocess.c:find_arg', go)
+    n = reissue(rep, 'R17.17', sub, 'a body identifier would be replaced by the argument of another parameter (the argument list is not an exact-match name table): ',
+                keep=lambda o: ':find_arg:' in o['key'])
+    if not n:
+        rep.undecided('R17.17', 'preprocess.c:find_arg:lookup', 'the parameter lookup of a macro invocation (find_arg) could not be evaluated')
+    ncmp = npair = 0
+    for un in P.unit_names:
+        uu = P.unit(un)
+        for fname, fd in uu.functions.items():
+            if un == 'hashmap.c' and fname == 'hashmap_test':
+                continue
+            once = None
+            for c in fd.calls(_BYTE_CMP + ('hashmap_get2', 'hashmap_put2', 'hashmap_delete2')):
+                a = c.args()
+                if len(a) < 3:
+                    continue
+                if once is None:
+                    once = _once_defs(fd)
+                where = '%s:%d' % (un, c.line)
+                if c.callee() not in _BYTE_CMP:
+                    # (iii) the key bytes and the length come from the same (pointer, length) record
+                    k, ln = _thru(a[1], once), _thru(a[2], once)
+                    if k.kind != 'MemberExpr':
+                        continue
+                    npair += 1
+                    ok = ln.kind == 'MemberExpr' and _base_src(ln) == _base_src(k) and ln.name != k.name
+                    rep.ob('R17.17', '%s:%s:%s-length-belongs-to-key/%s' % (un, fname, c.callee(), k.name), ok,
+                           '%s is given the bytes `%s` with the length `%s`, which is not the length stored beside those bytes: the name is looked up/entered under a longer or shorter spelling than the one written' % (c.callee(), k.src(), ln.src()),
+                           where=where)
+                    continue
+                A, B, N = _thru(a[0], once), _thru(a[1], once), _thru(a[2], once)
+                key = stored = None
+                if N.kind == 'MemberExpr':
+                    nb = _base_src(N)
+                    for x, y in ((A, B), (B, A)):
+                        if x.kind == 'MemberExpr' and _base_src(x) == nb and x.name != N.name:
+                            key, stored = x, y
+                            break
+                elif N.kind == 'DeclRefExpr' and N.ref_kind == 'ParmVarDecl':
+                    pa = [x for x in (A, B) if x.kind == 'DeclRefExpr' and x.ref_kind == 'ParmVarDecl']
+                    if len(pa) == 1:
+                        key = pa[0]
+                        stored = B if key is A else A
+                elif N.kind == 'CallExpr' and N.callee() == 'strlen' and N.args():
+                    # the length of one operand, while the other is the pointer of a (pointer, length) record (token text): the record's own length must be compared with it
+                    xs = _thru(N.args()[0], once).src()
+                    for x, y in ((A, B), (B, A)):
+                        if y.src() == xs and x.kind == 'MemberExpr' and _has_length_sibling(uu, x):
+                            key, stored = y, x
+                            break
+                if key is None:
+                    continue        # a fixed-length or prefix comparison (literal length, strlen of an operand): not a lookup by (pointer, length)
+                ncmp += 1
+                ev = _length_evidence(_cond_context(c), stored, N, once)
+                kname = '%s-vs-%s' % (_nm(key, 'key'), _nm(stored, 'name'))
+                if ev == 'helper':
+                    rep.undecided('R17.17', '%s:%s:length-test/%s' % (un, fname, kname), 'the %s of `%s` with `%s` over `%s` bytes stands beside a helper call; the analysis cannot tell whether the helper compares the lengths' % (c.callee(), key.src(), stored.src(), N.src()), where=where)
+                    continue
+                rep.ob('R17.17', '%s:%s:%s' % (un, fname, ('exact-length-tested/%s' if ev == 'yes' else 'prefix-match/%s') % kname), ev == 'yes',
+                       '%s(%s, %s, %s) compares only the first `%s` bytes - the length of ONE of the two names - and no condition that decides the match tests that the other one, `%s`, has that length: '
+                       'a key matches every stored name that merely begins with it (`v` finds `value`, `t` finds `type`), so the first such entry in the list/table answers instead of the entry of that name'
+                       % (c.callee(), a[0].src(), a[1].src(), a[2].src(), N.src(), stored.src()), where=where)
+    if ncmp < 4:
+        rep.undecided('R17.17', 'name-comparisons', 'only %d comparison(s) of a (pointer, length) key with a stored name found in the program (match, equal, find_arg, hideset_contains, struct members): the name lookups are not recognised any more' % ncmp)
+    if npair < 4:
+        rep.undecided('R17.17', 'key-length-pairs', 'only %d length-taking table operation(s) on token text found' % npair)
+
+
+# ------------------------------------------------------------------ R17.18: the binding is entered after its initialiser was evaluated ---
+def r1718(P, rep):
+    """last-write-wins is a statement about the ORDER of table operations: the lookups made while an enumerator's `= constant-expression` is evaluated
+    belong before the insertion of that enumerator (C11 6.2.1p7), so they must be answered by the previous binding of the name.  Over every path of
+    enum_specifier (C03's event abstraction of the declaration parsers): the insertion of the identifier spelled by the enumerator's own token follows the
+    parser call that starts right behind that token"""
+    rep.rule('R17.18', 'a table write does not overtake the reads that precede it in the program text: on every path of enum_specifier the enumerator is entered into the scope table only after the '
+                       'call that evaluates its own `= constant-expression` has returned, so a lookup of the same name inside that expression is still answered by the previous (enclosing) binding, '
+                       'not by the half-built new one', floor=1)
+    pu = P.unit('parse.c')
+    fn = 'enum_specifier'
+    if fn not in pu.functions:
+        raise AnalysisBroken('anchor %s vanished from parse.c' % fn)
+    where = 'parse.c:%d' % pu.fn(fn).line
+
+    def go():
+        from . import c03
+        return c03.decl_events(P, pu, fn, lambda tm, ctx, rest: [rest, tm.token('tok')])
+    r = _borrow(rep, 'R17.18', 'parse.c:%s' % fn, go)
+    if r is None:
+        return
+    it, paths = r
+    n_own = n_ins = 0
+    for ctx, o, evs in paths:
+        if o[0] != 'ret':
+            continue
+        inserted = [e for e in evs if e[0] == 'insert']
+        n_ins += len(inserted)
+        if any(e[2] is None for e in inserted):
+            rep.undecided('R17.18', 'parse.c:%s:enumerator-name' % fn, 'a name entered into the scope table is not spelled from an identifier token: the enumerator it binds cannot be identified', where=where)
+        idents = [e[2] for e in inserted if e[2]]
+        for i, e in enumerate(evs):
+            if e[0] != 'parse' or e[1] == 'declarator' or not e[2]:
+                continue
+            owners = [t for t in idents if e[2] == t or e[2].startswith(t + '.next')]
+            if not owners:
+                continue
+            own = max(owners, key=len)
+            pos = [j for j, x in enumerate(evs) if x[0] == 'insert' and x[2] == own]
+            n_own += 1
+            ok = bool(pos) and min(pos) > i
+            rep.ob('R17.18', 'parse.c:%s:%s' % (fn, 'binding-entered-after-its-%s' % e[1] if ok else 'binding-entered-before-its-%s' % e[1]), ok,
+                   'the enumerator is entered into the scope table before %s() evaluates its own `= constant-expression`: a lookup of the same name inside the expression finds the new, half-built entry '
+                   '(value 0) instead of the binding that was the most recent one when the expression was written - `enum { BASE = BASE + 2 }` under an outer BASE = 40 yields 2 instead of 42' % e[1],
+                   where='parse.c:%d' % e[3], facts={'order': [(x[0], x[1], x[2]) for x in evs]})
+    if n_ins == 0 or n_own == 0:
+        rep.undecided('R17.18', 'parse.c:%s:enumerators' % fn, 'no returning path enters an enumerator with a constant expression into the scope table', where=where)
 
 
 def _ident_guard(fd, call, base_src):
@@ -159,7 +423,7 @@ def r1716(P, rep):
     through parameters/locals to where the string is made: an identifier literal, or the spelling of a token the path has tested to be TK_IDENT"""
     import re
     from ..lib_c17_memo import MemoKeys
-    rep.rule('R17.16', 'every string that can reach the key of an insertion into the macro table is a macro name: traced back through parameters and once-defined locals over all call sites it is an identifier literal or the spelling (loc, len) of a token whose kind the path has tested to be TK_IDENT; text cut out of a command-line word is not lexed and is not a name', floor=2)
+    rep.rule('R17.16', 'every string that can reach the key of an insertion into the macro table is a macro name: traced back through parameters and once-defined locals over all call sites it is an identifier literal or the spelling (loc, len) of a token whose kind the path has tested to be TK_IDENT; text cut out of a command-line word is not lexed and is not a name; the key of every deletion from the macro table is a name in the same sense (`-U word` is lexed like the name of #undef)', floor=3)
     M = MemoKeys(P)
     pu = P.unit('preprocess.c')
     if 'add_macro' not in pu.functions:
@@ -199,6 +463,10 @@ def r1716(P, rep):
                 base = a.inner[0].strip_all().src()
                 leaves.append(('token' if _ident_guard(fd, n, base) else 'unchecked-token', un, f, n, base)); return
             leaves.append(('cut', un, f, n, 'a piece of a string cut out with strndup()')); return
+        if n.kind == 'MemberExpr' and n.name == 'loc':
+            # the bytes of a token, handed over with the token's length (hashmap_*2): the token's spelling
+            base = n.inner[0].strip_all().src()
+            leaves.append(('token' if _ident_guard(fd, n, base) else 'unchecked-token', un, f, n, base)); return
         leaves.append(('other', un, f, n, 'a string that is not made by the lexer (`%s`, e.g. a command-line word)' % n.src()))
 
     nsite = 0
@@ -209,6 +477,25 @@ def r1716(P, rep):
     if not nsite or not leaves:
         rep.undecided('R17.16', 'preprocess.c:add_macro:key', 'the insertion into the macro table (or the origin of its key) was not found')
         return
+    _r1716_report(rep, M, leaves, 'macro-name', CHAR_TESTS)
+    # the same for the key of a deletion: `#undef M` / `-U M` remove the definition of the NAME M only if the string that reaches hashmap_delete is that
+    # name as the lexer spells it (the table holds names as lexed: universal character names decoded, no white space)
+    put_leaves, leaves[:] = list(leaves), []
+    ndel = 0
+    for cal in ('hashmap_delete', 'hashmap_delete2'):
+        for (cu, cf, c) in M.calls.get(cal, ()):
+            if c.args() and c.args()[0].src().lstrip('&') == 'macros' and len(c.args()) > 1:
+                ndel += 1
+                resolve(cf, c.args()[1], frozenset())
+    if not ndel or not leaves:
+        rep.undecided('R17.16', 'preprocess.c:undef_macro:key', 'the deletion from the macro table (or the origin of its key) was not found')
+        return
+    _r1716_report(rep, M, leaves, 'undef-name', CHAR_TESTS)
+
+
+def _r1716_report(rep, M, leaves, what, CHAR_TESTS):
+    import re
+    ins = what == 'macro-name'
     ident = re.compile(r'^[A-Za-z_][A-Za-z0-9_]*$')
     by = {}
     for lf in leaves:
@@ -219,15 +506,16 @@ def r1716(P, rep):
         lits = [l for l in ls if l[0] == 'lit']
         if lits:
             bad = [l for l in lits if not ident.match(l[4] or '')]
-            rep.ob('R17.16', '%s:%s:macro-name-literals-are-identifiers' % (un, f), not bad,
-                   'a macro is entered under the literal %r, which is not an identifier: no identifier lookup can find it' % ([l[4] for l in bad][:3],), where=where((bad or lits)[0][3]), facts={'literals': len(lits)})
+            rep.ob('R17.16', '%s:%s:%s-literals-are-identifiers' % (un, f, what), not bad,
+                   'a macro is %s under the literal %r, which is not an identifier: no identifier lookup can find it' % ('entered' if ins else 'deleted', [l[4] for l in bad][:3],), where=where((bad or lits)[0][3]), facts={'literals': len(lits)})
         toks = [l for l in ls if l[0] == 'token']
         if toks:
-            rep.ob('R17.16', '%s:%s:macro-name-is-the-spelling-of-an-identifier-token' % (un, f), True, '', where=where(toks[0][3]))
+            rep.ob('R17.16', '%s:%s:%s-is-the-spelling-of-an-identifier-token' % (un, f, what), True, '', where=where(toks[0][3]))
         for l in ls:
             if l[0] == 'unchecked-token':
-                rep.ob('R17.16', '%s:%s:macro-name-token-kind-not-tested' % (un, f), False,
-                       'the spelling of token `%s` becomes a macro name on a path that has not tested its kind to be TK_IDENT: `#define 1 2` / `#define ( x` would enter a non-name into the table' % l[4], where=where(l[3]))
+                rep.ob('R17.16', '%s:%s:%s-token-kind-not-tested' % (un, f, what), False,
+                       ('the spelling of token `%s` becomes a macro name on a path that has not tested its kind to be TK_IDENT: `#define 1 2` / `#define ( x` would enter a non-name into the table' if ins else
+                        'the spelling of token `%s` is deleted from the macro table on a path that has not tested its kind to be TK_IDENT: `#undef 1` / `#undef (` would be accepted silently') % l[4], where=where(l[3]))
         raw = [l for l in ls if l[0] in ('cut', 'other')]
         if raw:
             lexed = bool(fd.calls(CHAR_TESTS))
@@ -235,12 +523,17 @@ def r1716(P, rep):
             for k in kinds:
                 l = [x for x in raw if (x[0] == 'cut') == (k == 'text-cut-out-of-a-string')][0]
                 if lexed:
-                    rep.undecided('R17.16', '%s:%s:macro-name/%s' % (un, f, k), '%s reaches the key of the macro table; the function tests characters, but the analysis cannot tell that only identifiers pass' % l[4], where=where(l[3]))
-                else:
+                    rep.undecided('R17.16', '%s:%s:%s/%s' % (un, f, what, k), '%s reaches the key of the macro table; the function tests characters, but the analysis cannot tell that only identifiers pass' % l[4], where=where(l[3]))
+                elif ins:
                     rep.ob('R17.16', '%s:%s:macro-name-is-%s' % (un, f, k), False,
                            '%s reaches the key of the macro table (through %s) without being lexed: the table gets a definition under a string that is not an identifier - '
                            '`-DF(x)=x+1` enters an object-like macro literally named `F(x)`, which no lookup can find, while F, the name the definition is for, stays undefined '
                            '(gcc defines the function-like macro F); `-D"A B"` likewise' % (l[4], f), where=where(l[3]))
+                else:
+                    rep.ob('R17.16', '%s:%s:undef-name-is-%s' % (un, f, k), False,
+                           '%s reaches the key of a deletion from the macro table (through %s) without being lexed, while every name in the table was entered as the lexer spells it '
+                           '(universal character names decoded, white space dropped): the deletion looks for a string that is not the name, finds nothing, and the name stays defined although its most recent '
+                           'operation was an #undef - `-DFOO -U"FOO "` and `-D\\u00c4B -U\\u00c4B` leave the macro defined (gcc lexes the -U word like the name of #undef)' % (l[4], f), where=where(l[3]))
 
 
 def r1715(P, rep):
@@ -1051,8 +1344,15 @@ def r177(P, rep):
         rep.ob('R17.7', 'preprocess.c:add_macro:installs-fresh-macro', ok and fresh,
                'add_macro does not install a freshly allocated Macro carrying exactly (name, is_objlike, body) under `name` (a reused object keeps stale fields such as the builtin handler)', where='preprocess.c:%d' % pu.fn('add_macro').line, facts={'path': ctx.trail})
     # undef_macro deletes by the same name
-    for c in pu.fn('undef_macro').calls(('hashmap_delete', 'hashmap_delete2')):
-        rep.ob('R17.7', 'preprocess.c:undef_macro:deletes-name', c.args()[1].src() == 'name', 'undef_macro deletes another key than its argument', where='preprocess.c:%d' % c.line)
+    ufd = pu.fn('undef_macro')
+    pnames = {p.name for p in ufd.inner if p.kind == 'ParmVarDecl'}
+    for c in ufd.calls(('hashmap_delete', 'hashmap_delete2')):
+        k = c.args()[1].strip_all()
+        ok = k.kind == 'DeclRefExpr' and k.ref_kind == 'ParmVarDecl' and k.ref_name in pnames
+        if not ok and k.kind == 'MemberExpr' and k.name == 'loc':
+            # the spelling of the token the argument was lexed into: every local on the way from the parameter to the token is made from the parameter
+            ok = _made_from_param(ufd, k.inner[0], pnames)
+        rep.ob('R17.7', 'preprocess.c:undef_macro:deletes-name', ok, 'undef_macro deletes another key than its argument (or the token its argument is lexed into)', where='preprocess.c:%d' % c.line)
     # -D / -U in one loop in argv order
     mu = P.unit('main.c')
     pa = mu.fn('parse_args')
